@@ -187,6 +187,8 @@ def session(rng, values_cap, cost_cap):
     else:
         D = rng.choice([1, 2, 3, rng.randint(4, 64), 64])
     s = _start_seed(rng)
+    if method == "kgf" and rng.random() < 0.4:
+        s = 0                                         # the Korobov sequence starts at seed 0
     kmax = max(0, min(256, values_cap // D - 1))
     k = rng.choice([0, 1, min(kmax, 256), rng.randint(0, kmax), rng.randint(0, kmax)])
     if s + k > 10 ** 6 + 256:
